@@ -11,6 +11,7 @@
 package tsched
 
 import (
+	"slices"
 	"bytes"
 	"fmt"
 	"runtime"
@@ -88,6 +89,7 @@ type worker struct {
 	parkedAt string
 	stuck    bool
 	iters    []statedb.ChangeIterator[*acct]
+	iterTbl  []statedb.RWTable[*acct] // the table of each open iterator
 	// open transaction bookkeeping (for classification)
 	inTxn         bool
 	holding       map[uint64]bool
@@ -222,10 +224,12 @@ func (s *sched) runWorker(w *worker) {
 				return
 			}
 			w.iters = append(w.iters, it)
+			w.iterTbl = append(w.iterTbl, t)
 		case aCloseIter:
 			if len(w.iters) > 0 {
 				w.iters[0].Close()
 				w.iters = w.iters[1:]
+				w.iterTbl = w.iterTbl[1:]
 			}
 		case aTxnRejected:
 			s.doTxnRejected(w, ai, a)
@@ -523,13 +527,13 @@ func run(c Case, own string) (res result) {
 	if s.classes["two_inside"] {
 		res.nontrivial = true
 	}
+	if !s.failed() {
+		s.finalChecks()
+	}
 	for k := range s.classes {
 		res.classes = append(res.classes, k)
 	}
 	sort.Strings(res.classes)
-	if !s.failed() {
-		s.finalChecks()
-	}
 	s.mu.Lock()
 	if len(s.viol) > 0 {
 		// deadlock-type findings belong to C10, everything else to C05; the other
@@ -691,10 +695,39 @@ func (s *sched) finalChecks() {
 		}
 		// probe: the table can be written and read back
 		wtxn := s.db.WriteTxn(t)
+		t.Insert(wtxn, &acct{ID: "gone"})
+		wtxn.Commit()
+		wtxn = s.db.WriteTxn(t)
 		t.Insert(wtxn, &acct{ID: "probe", Cnt: 7})
 		r2 := wtxn.Commit()
 		if p, _, ok := t.Get(r2, acctIndex.Query("probe")); !ok || p.Cnt != 7 {
 			s.fail("lost-table", "table %s: a probe write after the run cannot be read back", t.Name())
+		}
+	}
+	// every change iterator that is still open is still registered (its
+	// registration was a committed write): a deletion made now is delivered to it
+	for _, w := range s.workers {
+		for i, it := range w.iters {
+			t := w.iterTbl[i]
+			wtxn := s.db.WriteTxn(t)
+			_, had, _ := t.Delete(wtxn, &acct{ID: "gone"})
+			r := wtxn.Commit()
+			if !had {
+				continue // already probed through another iterator of this table
+			}
+			delivered := false
+			for round := 0; round < 3 && !delivered; round++ {
+				changes, _ := it.Next(r)
+				for c := range changes {
+					if c.Deleted && c.Object.ID == "gone" {
+						delivered = true
+					}
+				}
+			}
+			if !delivered {
+				s.fail("lost-registration", "an open change iterator on table %s (created by worker %d in a committed transaction) is not handed a deletion committed after all workers finished: its registration was lost", t.Name(), w.id)
+			}
+			s.classes["open_iterator_probed"] = true
 		}
 	}
 }
@@ -712,8 +745,13 @@ func genCase(t *rapid.T, p profile) Case {
 		c.Pad = rapid.SliceOfN(rapid.SampledFrom([]int{0, 1, 62, 63, 63, 64, 127}), c.NTables, c.NTables).Draw(t, "pad")
 	}
 	nw := rapid.IntRange(2, 4).Draw(t, "workers")
+	acts, maxTable := p.acts, 5
+	if slices.Contains(p.acts, aChanges) && rapid.IntRange(0, 5).Draw(t, "iteratorHeavy") == 0 {
+		// iterator registrations and closes racing each other on few tables
+		acts, maxTable = []int{aChanges, aChanges, aChanges, aCloseIter, aCloseIter, aTxn}, 1
+	}
 	act := rapid.Custom(func(t *rapid.T) Act {
-		a := Act{K: rapid.SampledFrom(p.acts).Draw(t, "k")}
+		a := Act{K: rapid.SampledFrom(acts).Draw(t, "k")}
 		switch a.K {
 		case aTxn:
 			a.Tables = rapid.SliceOfN(rapid.IntRange(0, 5), 1, 4).Draw(t, "tables")
@@ -722,7 +760,7 @@ func genCase(t *rapid.T, p profile) Case {
 			a.Tables = rapid.SliceOfN(rapid.IntRange(0, 5), 0, 3).Draw(t, "tables")
 			a.Commit = rapid.Bool().Draw(t, "rejectedLast")
 		case aChanges:
-			a.Tables = []int{rapid.IntRange(0, 5).Draw(t, "table")}
+			a.Tables = []int{rapid.IntRange(0, maxTable).Draw(t, "table")}
 		}
 		return a
 	})
@@ -764,10 +802,10 @@ func has(cl []string, x string) bool {
 	return false
 }
 
-const ruleC05 = "2-4 worker goroutines, each running 1-4 actions (write transactions over arbitrary overlapping/disjoint table lists in any order with duplicates that read a per-table counter, write counter+1 and transfer one unit between two of their tables, committed or aborted; snapshot reads checking the conserved cross-table sum; NewTable; WriteTxn requests naming a table handle whose registration was rejected as duplicate - these must be refused and leave nothing behind) over 2-4 initial tables (in one case out of six placed up to 128 positions apart in a database with many other tables); every hook point in WriteTxn/Commit/Abort/registerTable and every table-lock acquisition/release is a scheduling point and a generated schedule decides which worker proceeds (exactly one at a time). Oracle: the counter a transaction reads equals the increments committed (root stored) before it obtained the table; no table lock has two holders; every snapshot shows the conserved sum; at the end each counter equals its committed increments, every table ever registered is in the root and can be written and read back. Non-trivial = two workers were inside a write transaction at the same time; distinct by case encoding."
+const ruleC05 = "2-4 worker goroutines, each running 1-4 actions (write transactions over arbitrary overlapping/disjoint table lists in any order with duplicates that read a per-table counter, write counter+1 and transfer one unit between two of their tables, committed or aborted; snapshot reads checking the conserved cross-table sum; NewTable; creating and closing change iterators; WriteTxn requests naming a table handle whose registration was rejected as duplicate - these must be refused and leave nothing behind) over 2-4 initial tables (in one case out of six placed up to 128 positions apart in a database with many other tables); every hook point in WriteTxn/Commit/Abort/registerTable and every table-lock acquisition/release is a scheduling point and a generated schedule decides which worker proceeds (exactly one at a time). Oracle: the counter a transaction reads equals the increments committed (root stored) before it obtained the table; no table lock has two holders; every snapshot shows the conserved sum; at the end each counter equals its committed increments, every table ever registered is in the root and can be written and read back, and every change iterator still open is handed a deletion committed at the end (its registration was not lost). Non-trivial = two workers were inside a write transaction at the same time; distinct by case encoding."
 
 func TestC05Serialised(t *testing.T) {
-	schedTest(t, "C05", "TestC05Serialised", ruleC05, profile{acts: []int{aTxn, aTxn, aTxn, aTxn, aTxn, aTxn, aRead, aNewTable, aNewTable, aTxnRejected}}, func(cl []string) bool {
+	schedTest(t, "C05", "TestC05Serialised", ruleC05, profile{acts: []int{aTxn, aTxn, aTxn, aTxn, aTxn, aTxn, aRead, aNewTable, aNewTable, aTxnRejected, aChanges, aChanges, aCloseIter}}, func(cl []string) bool {
 		return has(cl, "two_inside") || has(cl, "newtable_while_txn_open")
 	})
 }
